@@ -258,7 +258,7 @@ example : table.lookup "lockedro_gen32" = some (.raw 32) ∧
 name occurs twice, so `table.lookup` is a function on the names that occur in it.
 This does NOT say that the table covers the runner's list of randomised entry points
 (`/verif/harness/src/ops_rand.rs`): that list lives in Rust source and no Lean statement
-relates to it.  Coverage is a manual correspondence (67 names on both sides when this was
+relates to it.  Coverage is a manual correspondence (68 names on both sides when this was
 written) checked only by the differential run, where a name missing from the table makes
 the driver answer `n/a`. -/
 theorem table_total : (table.map Prod.fst).Nodup := by decide
@@ -266,15 +266,15 @@ theorem table_total : (table.map Prod.fst).Nodup := by decide
 /-- … and every name of the table does have its entry (again about the literal list) -/
 theorem table_lookup_mem : ∀ e ∈ table, table.lookup e.1 = some e.2 := by decide
 
-/-- regression guard for the manual correspondence: the number of entries — the 67 names the
+/-- regression guard for the manual correspondence: the number of entries — the 68 names the
 runner offers plus `heapbytes_gen_locked0`, which it does not (see `heapbytes_gen_locked_draws_nothing`) -/
-theorem table_length : table.length = 68 := by decide
+theorem table_length : table.length = 69 := by decide
 
-/-- … of which exactly one is not a name of the runner; the other 67 are in front of it, unchanged
+/-- … of which exactly one is not a name of the runner; the other 68 are in front of it, unchanged
 (so the driver's answers for them are what they were) -/
-theorem table_runner_part : (table.take 67).length = 67 ∧
-    table.drop 67 = [("heapbytes_gen_locked0", .raw 0)] ∧
-    ∀ e ∈ table.take 67, table.lookup e.1 = some e.2 := by decide
+theorem table_runner_part : (table.take 68).length = 68 ∧
+    table.drop 68 = [("heapbytes_gen_locked0", .raw 0)] ∧
+    ∀ e ∈ table.take 68, table.lookup e.1 = some e.2 := by decide
 
 /-- every entry point of the table EXCEPT `heapbytes_gen_locked0` draws at least one byte (for that
 one see `heapbytes_gen_locked_draws_nothing`; with it in the table the unrestricted statement is
